@@ -25,17 +25,18 @@ DefaultsDef ==
 V(n) ==
   LET t == D("v" \o ToString(n)) IN
   {<<>>, [x \in {"a"} |-> t], [x \in {"a"} |-> Null],
-   [x \in {"a"} |-> Mp([y \in {"b"} |-> t])], [x \in {"a"} |-> Mp([y \in {"b"} |-> Null])]}
+   [x \in {"a"} |-> Mp([y \in {"b"} |-> t])], [x \in {"a"} |-> Mp([y \in {"b"} |-> Null])],
+   [x \in {"a"} |-> Mp(<<>>)]}        \* an empty table: adds nothing, removes nothing
   \cup (IF Full THEN {[x \in {"a"} |-> Mp([y \in {"c"} |-> t])], [x \in {"k"} |-> Null],
                       [x \in {"a"} |-> Li(<<t>>)]} ELSE {})
 
 Modes == {"default", "reset", "reuse", "rtr"}
 NoVals == <<>>
 StepsAt(n) ==
-  IF n = 1 THEN {[op |-> "install", mode |-> "", vals |-> v, chart |-> 1, target |-> 0] : v \in V(1)}
-  ELSE {[op |-> "upgrade", mode |-> m, vals |-> v, chart |-> c, target |-> 0] :
-           m \in Modes, v \in V(n), c \in DOMAIN Defaults}
-       \cup {[op |-> "rollback", mode |-> "", vals |-> NoVals, chart |-> 0, target |-> t] : t \in 1..(n - 1)}
+  IF n = 1 THEN {[op |-> "install", mode |-> "", vals |-> v, chart |-> 1, target |-> 0, fail |-> FALSE] : v \in V(1)}
+  ELSE {[op |-> "upgrade", mode |-> m, vals |-> v, chart |-> c, target |-> 0, fail |-> f] :
+           m \in Modes, v \in V(n), c \in DOMAIN Defaults, f \in BOOLEAN}
+       \cup {[op |-> "rollback", mode |-> "", vals |-> NoVals, chart |-> 0, target |-> t, fail |-> FALSE] : t \in 1..(n - 1)}
 
 \* a state is the sequence of the indexes picked in StepSeq(1), StepSeq(2), ...
 StepSeq1 == SetToSeq(StepsAt(1))
@@ -70,7 +71,7 @@ DiffsOf(st) ==
       cfgs == [i \in 1..n |-> cr[i].cfg]
       one(i) ==
         LET s == st[i]
-            depCfg == IF i > 1 THEN cr[i - 1].cfg ELSE <<>>
+            depCfg == IF i > 1 THEN cr[DepAt(st, i)].cfg ELSE <<>>
             tgtCfg == IF s.op = "rollback" THEN cr[s.target].cfg ELSE <<>>
             l18 == L18Lineage(st, cfgs, i)
             c == IF ConfigOk(s, depCfg, tgtCfg, cr[i].cfg) THEN {} ELSE {IF l18 THEN "kf:L18-config" ELSE "L:config"}
@@ -78,7 +79,7 @@ DiffsOf(st) ==
         IN c \cup e
   IN UNION {one(i) : i \in 1..n}
 
-StepJ(s) == [op |-> s.op, mode |-> s.mode, vals |-> Mp(s.vals), chart |-> s.chart, target |-> s.target]
+StepJ(s) == [op |-> s.op, mode |-> s.mode, vals |-> Mp(s.vals), chart |-> s.chart, target |-> s.target, fail |-> s.fail]
 RECURSIVE PickStr(_)
 PickStr(p) == IF p = <<>> THEN "" ELSE "_" \o ToString(p[1]) \o PickStr(Tail(p))
 ChainJ(p) == LET st == StepsOf(p) IN
